@@ -55,7 +55,36 @@ static void per_order(Harness &H, const std::string &d0, const Grid<S> &g, size_
   pos_all<o>(H, d0, g, n, xmax, std::make_index_sequence<7>{});
 }
 
+// high powers and orders: factorials and binomials beyond 2^31 (13!) and beyond 2^64 (21!)
+template <size_t o, class Op, class RefF>
+static void high_case(Harness &H, const std::string &opname, RefF reff) {
+  auto pts = grid_family("far", 3);
+  Grid<S> g = mkgrid<S>(pts);
+  for (size_t p : {(size_t)0, o, 2 * (o + 1) - 1, 2 * (o + 1) + 1}) {  // unit vectors at both ends of the coefficient array, one generic
+    if (!H.take()) continue;
+    size_t K = 2 * (o + 1);
+    H.begin("far3;high;" + opname + ";o" + std::to_string(o) + ";w(0,3);" + pname(K, p));
+    auto s = mkspline_p<S, o>(g, Win{0, 3}, p);
+    RefPP ex = reff(alpha(s));
+    Outcome oc = attempt([&] {
+      auto r = Op{} * s;
+      RefPP got = alpha(r);
+      if (got != ex) H.fail(opname, opname + " on order " + std::to_string(o) + " gives " + got.str().substr(0, 300) + ", expected " + ex.str().substr(0, 300));
+    });
+    if (oc.threw()) H.fail(opname + ":threw", oc.str());
+    H.cls("high:" + opname);
+    H.nontriv();
+    H.end();
+  }
+}
+
 static void run(Harness &H) {
+  high_case<13, Dx<13>>(H, "Dx13", [](const RefPP &r) { return rderiv(r, 13); });
+  high_case<15, Dx<14>>(H, "Dx14", [](const RefPP &r) { return rderiv(r, 14); });
+  high_case<22, Dx<21>>(H, "Dx21", [](const RefPP &r) { return rderiv(r, 21); });
+  high_case<1, X<18>>(H, "X18", [](const RefPP &r) { return rmulx(r, 18); });
+  high_case<0, X<22>>(H, "X22", [](const RefPP &r) { return rmulx(r, 22); });
+  high_case<2, X<35>>(H, "X35", [](const RefPP &r) { return rmulx(r, 35); });
   std::vector<std::string> fams = H.thorough() ? std::vector<std::string>{"nonuni", "far", "uni", "neg", "sym"} : std::vector<std::string>{"far", "neg", "sym"};
   size_t n = H.thorough() ? 5 : 4, xmax = 6;
   for (auto fam : fams) {
